@@ -145,17 +145,17 @@ def run(ctx, cfg):
 
 # ---- Mode B (DESIGN §2): concrete box, concrete objective-like prefix of P rounds, k symbolic rounds
 MODEB = {
-    "T_HOO": [(15, {}), (40, {}), (24, {"nu": 0.3, "rho": 0.5}), (30, {"nu": 4, "rho": 0.5, "rounds": 1000}), (35, {"nu": 1, "rho": 0.75})],
-    "HCT": [(15, {}), (31, {"c": 0.1}), (63, {"c": 0.1}), (20, {"nu": 0.5, "rho": 0.6, "c": 0.2, "delta": 0.05}), (33, {"nu": 2, "rho": 0.75, "c": 0.1})],
+    "T_HOO": [(15, {}), (40, {}), (80, {}), (127, {"rounds": 1000}), (300, {"rounds": 100000}), (24, {"nu": 0.3, "rho": 0.5}), (30, {"nu": 4, "rho": 0.5, "rounds": 1000}), (35, {"nu": 1, "rho": 0.75})],
+    "HCT": [(15, {}), (31, {"c": 0.1}), (63, {"c": 0.1}), (127, {}), (255, {"c": 0.1}), (20, {"nu": 0.5, "rho": 0.6, "c": 0.2, "delta": 0.05}), (33, {"nu": 2, "rho": 0.75, "c": 0.1})],
     "VHCT": [(7, {}), (15, {"c": 0.1}), (18, {"c": 0.1, "bound": 2}), (12, {"c": 0.15, "bound": 0.5, "nu": 2, "rho": 0.6})],
-    "DOO": [(12, {}), (25, {}), (14, {"delta": "user"})], "SOO": [(12, {}), (30, {}), (9, {"h_max": 3})],
-    "StoSOO": [(12, {}), (30, {"k": 3}), (11, {"k": 1, "h_max": 3}), (20, {"k": None, "n": 400})],
-    "SequOOL": [(12, {"n": 40}), (20, {"n": 40}), (9, {"n": 12}), (15, {"n": 20}), (24, {"n": 30})],
-    "StroquOOL": [(10, {"n": 200}), (14, {"n": 200}), (3, {"n": 100}), (30, {"n": 400}), (19, {"n": 500}), (40, {"n": 1000}), (60, {"n": 3000})],
+    "DOO": [(12, {}), (25, {}), (14, {"delta": "user"}), (100, {"n": 1000})], "SOO": [(12, {}), (30, {}), (9, {"h_max": 3}), (100, {"n": 1000}), (60, {"n": 1000, "h_max": 5})],
+    "StoSOO": [(12, {}), (30, {"k": 3}), (100, {"n": 1000}), (11, {"k": 1, "h_max": 3}), (20, {"k": None, "n": 400})],
+    "SequOOL": [(62, {"n": 1000}), (113, {"n": 1000}), (12, {"n": 40}), (20, {"n": 40}), (9, {"n": 12}), (15, {"n": 20}), (24, {"n": 30})],
+    "StroquOOL": [(10, {"n": 200}), (14, {"n": 200}), (3, {"n": 100}), (30, {"n": 400}), (19, {"n": 500}), (40, {"n": 1000}), (44, {"n": 1000}), (60, {"n": 3000})],
     "Zooming": [(16, {"nu": 3, "rho": 0.5}), (45, {"nu": 3, "rho": 0.5}), (40, {"nu": 1, "rho": 0.9}), (29, {"nu": 1.6, "rho": 0.75}), (61, {"nu": 1, "rho": 0.9})],
-    "POO": [(10, {"rhomax": 0.9}), (12, {"rhomax": 0.84}), (30, {"rhomax": 0.9}), (13, {"rhomax": 0.95}), (78, {"rhomax": 0.9, "rounds": 80}), (20, {"rhomax": 0.86, "rounds": 22, "base": "HCT"})],
-    "GPO": [(9, {"rhomax": 0.9}), (14, {"rhomax": 0.9}), (48, {"rhomax": 0.5}), (21, {"rhomax": 0.8, "rounds": 129, "base": "HCT"})],
-    "PCT": [(9, {"rhomax": 0.9}), (30, {"rhomax": 0.7, "rounds": 101})], "VPCT": [(9, {"rhomax": 0.9})], "VROOM": [(3, {"n": 8, "h_max": 3})],
+    "POO": [(10, {"rhomax": 0.9}), (12, {"rhomax": 0.84}), (30, {"rhomax": 0.9}), (13, {"rhomax": 0.95}), (78, {"rhomax": 0.9, "rounds": 80}), (150, {"rhomax": 0.9, "rounds": 1000}), (20, {"rhomax": 0.86, "rounds": 22, "base": "HCT"})],
+    "GPO": [(9, {"rhomax": 0.9}), (14, {"rhomax": 0.9}), (65, {"rhomax": 0.9, "rounds": 1000}), (98, {"rhomax": 0.9, "rounds": 1000}), (48, {"rhomax": 0.5}), (21, {"rhomax": 0.8, "rounds": 129, "base": "HCT"})],
+    "PCT": [(9, {"rhomax": 0.9}), (65, {"rhomax": 0.9, "rounds": 1000}), (30, {"rhomax": 0.7, "rounds": 101})], "VPCT": [(9, {"rhomax": 0.9})], "VROOM": [(3, {"n": 8, "h_max": 3})],
 }
 
 
@@ -179,4 +179,15 @@ def modeb_configs(tier, algos, tag="modeb", parts=("B", "K3", "RB")):
                     c["prefix"] = pre
                     c["cost"] = P
                     out.append(c)
+    # rising rewards: the search descends a single path, cells 17-20 levels deep after 36-40 rounds (DOO's default diameter
+    # is then ~1e-10 of the root's, SOO's sweeps are 20 levels long)
+    for algo, P, k in (("DOO", 32, 4), ("DOO", 37, 2), ("SOO", 40, 2)):
+        if algo not in algos:
+            continue
+        k = k + q
+        c = _cfg(algo, "B", 1, P + k, {}, "-P%d+%d-rising" % (P, k))
+        c["name"] = tag + "-" + c["name"]
+        c["prefix"] = {"P": P, "k": k, "seed": 0, "pattern": "rising"}
+        c["cost"] = P
+        out.append(c)
     return out
